@@ -432,8 +432,8 @@ HIST_ALPHABET = [['He_H2', 0.05], ['He_H2', 1.0], ['N2_H2', 1e-3], ['N2_H2', 0.4
 HIST_REDUCED = [['He_H2', 0.05], ['He_H2', 1.0], ['H2O', 0.2], ['CH4', 0.5], ['N2_H2', 0.4]]
 
 
-def hist_build(case):
-    from mc import fixtures as fx
+def hist_build(case, net=None):
+    from mc import fixtures as fx, rthist
     from taurex.cache import OpacityCache
     fx.reset_caches()
     for mol in ('H2O', 'CH4'):
@@ -453,11 +453,15 @@ def hist_build(case):
         m.add_contribution(AbsorptionContribution())
         m.build()
         return m
-    return fx.build_model({'kind': 'transmission', 'N': case['N'], 'T': ['iso', 1200.0],
+    spec = {'kind': 'transmission', 'N': case['N'], 'T': ['iso', 1200.0],
                            # 'intratio': the ratios are given as whole Python numbers (a list of ints)
                            'fill': [['H2', 'He', 'N2'], [1, 2] if case.get('intratio') else [0.17, 0.01]],
                            'gases': [['H2O', ['const', 1e-4]], ['CH4', ['const', 1e-6]], ['CO', ['const', 1e-3]]],
-                           'contribs': ['abs']})
+                           'contribs': ['abs']}
+    if net is not None:
+        spec, rest = rthist.spec_with_net(spec, net)
+        return fx.build_model(spec), rest
+    return fx.build_model(spec)
 
 
 def _mix_eval(r, live, fresh, sig, net=None):
@@ -500,7 +504,8 @@ def hist_fn(case):
         if sum(tot.values()) > 1.0:
             break
         hist.append(op)
-    rthist.run_history(r, hist, lambda: hist_build(case), 'composition', extra_eval=_mix_eval, as_numpy=bool(case.get('np')))
+    rthist.run_history(r, hist, lambda: hist_build(case), 'composition', extra_eval=_mix_eval,
+                       build_with=(None if case.get('defaults') else (lambda net: hist_build(case, net))), as_numpy=bool(case.get('np')))
     if len(hist) < len(case['hist']):
         # the next update makes the traces exceed one: the live model must reject it as invalid
         live = hist_build(case)
